@@ -45,7 +45,7 @@ ASSUMPTIONS = [
 # known-finding signatures
 
 def _sig_profile(case, params):
-    return bool(case.get("explained_by")) and params.get("letter", "?") in case.get("explained_by", "")
+    return False     # the size / close-code deviations are repaired (entries are "fixed:"); nothing is explained by a profile
 
 
 def _sig_class(case, params):
@@ -506,47 +506,17 @@ _DEVIATIONS: list = []
 
 
 def flush_deviations(ctx, exe):
-    """Classify every recorded deviation from the RFC reference (which aiohttp-profile letters explain it / is it the
-    interleaved-data-frame class) with one model call, then report them."""
+    """Report every recorded deviation from the RFC reference decoder.  The only family that is an open finding is
+    the interleaved data frame: the reference stops with class data-in-message and the implementation agreed with it
+    up to that point; it is recognised by the signature, everything else is a new violation."""
     global _DEVIATIONS
     devs, _DEVIATIONS = _DEVIATIONS, []
-    if not devs:
-        return
-    keys = {}
-    for case, cfg, stream, obs, spec in devs:
-        keys.setdefault((cfg, stream), None)
-    order = list(keys)
-    ans = fw.run_model(exe, [spec_line(p, cfg, stream) for cfg, stream in order for p in ("w", "c", "wc")])
-    for i, k in enumerate(order):
-        keys[k] = [parse_spec(a) for a in ans[3 * i:3 * i + 3]]
     for case, cfg, stream, obs, (sev, sst, scls) in devs:
-        info = {"explained_by": "", "spec_class": None}
-        res = keys[(cfg, stream)]
-        for p, (ev, st, cls) in zip(("w", "c", "wc"), res):
-            if (ev, st) == obs:
-                info = {"explained_by": p, "spec_class": cls}
-                break
-        else:
-            ev, st, cls = res[2]
-            if cls == "data-in-message" and obs[0][:len(ev)] == ev:
-                info = {"explained_by": "", "spec_class": cls}
-        ctx.count("deviation:" + (info["explained_by"] or info["spec_class"] or "UNEXPLAINED"))
-        ctx.violation(dict(case, kind="spec", **info, spec=[sev, sst, scls], impl=[obs[0], obs[1]]),
+        cls = scls if (scls == "data-in-message" and obs[0][:len(sev)] == sev) else None
+        ctx.count("deviation:" + (cls or "UNEXPLAINED"))
+        ctx.violation(dict(case, kind="spec", explained_by="", spec_class=cls, spec=[sev, sst, scls], impl=[obs[0], obs[1]]),
                       f"reader differs from the RFC 6455/7692 reference decoder: impl delivered {obs[0]} then {obs[1]}; "
                       f"reference delivers {sev} then {sst}" + (f" ({scls})" if scls else ""))
-
-
-def classify(exe, cfg, stream, impl_obs):
-    """impl_obs = (events, status).  -> dict(explained_by, spec_class)"""
-    ans = fw.run_model(exe, [spec_line(p, cfg, stream) for p in ("w", "c", "wc")])
-    for p, a in zip(("w", "c", "wc"), ans):
-        ev, st, cls = parse_spec(a)
-        if (ev, st) == impl_obs:
-            return {"explained_by": p, "spec_class": cls}
-    ev, st, cls = parse_spec(ans[2])
-    if cls == "data-in-message" and impl_obs[0][:len(ev)] == ev:
-        return {"explained_by": "", "spec_class": cls}
-    return {"explained_by": "", "spec_class": None}
 
 
 # ------------------------------------------------------------------------------------------------
@@ -666,6 +636,15 @@ def suite_reader(ctx, exe):
     with _Backend(ToyBackend):
         jobs = []      # (label, stream, cfg, seglist)
         for fn, case in corpus_cases():
+            if case.get("suite") == "stall":
+                r = replay_stall(case)
+                ran += 1
+                ctx.case(("stall", case.get("frames"), r["stale_entries"]), nontrivial=True)
+                if r["violates"] or r["pause_requested_with_empty_queue_at_frame"] is not None:
+                    ctx.violation(dict(case, kind="stale-fragments"),
+                                  f"{r['stale_entries']} stale entries in _payload_fragments after {r['frames']} two-read frames; "
+                                  f"pause requested with an empty queue at frame {r['pause_requested_with_empty_queue_at_frame']}")
+                continue
             if case.get("suite") != "reader":
                 continue
             stream = bytes.fromhex(case["stream"])
@@ -821,8 +800,8 @@ def suite_zlib(ctx):
                     if mx and len(body) > mx:
                         exp_status = "1009"
                         break
-                    if mx and wl >= mx:
-                        exp = None     # wire-size boundary: not judged here
+                    if mx and wl > mx:
+                        exp = None     # compressed form larger than the limit although the message fits: refused on the wire size
                         break
                     exp.append(("T:" if op == 1 else "B:") + fw.hexs(body))
                 results = []
@@ -934,7 +913,7 @@ def replay_stall(case):
             paused_at = i
         im.feed(f[2:])
     entries = len(im.r._payload_fragments)
-    return {"violates": entries > 0, "stale_entries": entries, "frames": n,
+    return {"violates": entries > 0 or paused_at is not None, "stale_entries": entries, "frames": n,
             "pause_requested_with_empty_queue_at_frame": paused_at, "max_fragments": im.r._max_fragments}
 
 
